@@ -218,8 +218,10 @@ func Explore(sc *Scenario, opt Options) *Stats {
 	stack := []frame{{}}
 	first := true
 	sigSeen := map[string]bool{}
-	type cost struct{ pre, dev int }
-	visited := map[uint64][]cost{}
+	// visited: state key -> cheapest cost (preemptions<<8 | deviations) with which it was expanded.
+	// One pair per state keeps memory flat; an incomparable pair is simply not used for pruning.
+	visited := map[uint64]uint16{}
+	const maxVisited = 12_000_000 // beyond this no new states are remembered (less pruning, same coverage)
 	for len(stack) > 0 {
 		f := stack[len(stack)-1]
 		stack = stack[:len(stack)-1]
@@ -235,14 +237,20 @@ func Explore(sc *Scenario, opt Options) *Stats {
 		if !opt.NoCache {
 			fpre, fdev := f.pre, f.dev
 			visit = func(k uint64) bool {
-				cs := visited[k]
-				for _, c := range cs {
-					if c.pre <= fpre && c.dev <= fdev {
+				if c, ok := visited[k]; ok {
+					cp, cd := int(c>>8), int(c&0xff)
+					if cp <= fpre && cd <= fdev {
 						st.CachePrunes++
 						return false
 					}
+					if fpre <= cp && fdev <= cd {
+						visited[k] = uint16(fpre<<8 | fdev)
+					}
+					return true
 				}
-				visited[k] = append(cs, cost{fpre, fdev})
+				if len(visited) < maxVisited {
+					visited[k] = uint16(fpre<<8 | fdev)
+				}
 				return true
 			}
 		}
